@@ -47,6 +47,9 @@ pub struct World {
     pub hal: HalState,
     pub dev: DevCore,
     pub bus: Bus,
+    pub mmio: Option<crate::mmio_dev::MmioModel>,
+    pub pci: Option<crate::pci_dev::PciBus>,
+    pub vp: Option<crate::pci_dev::VpModel>,
     pub model: Option<Box<dyn DeviceModel>>,
     pub faults: Vec<Fault>,
     /// Count of spin-hook calls in the current driver call (safety net).
@@ -60,6 +63,9 @@ impl World {
             hal: HalState::new(),
             dev: DevCore::new(),
             bus: Bus::new(),
+            mmio: None,
+            pci: None,
+            vp: None,
             model: None,
             faults: Vec::new(),
             spins: 0,
